@@ -88,8 +88,8 @@ PROFILE = netgen.profile(nb_level=(1, 3), nb_max=6, max_per_bus=2, extra_branche
 
 # drawn options: diagnostic thresholds, names documented in the diagnose_network docstring, power flow kwargs, run hooks
 KW = {
-    "overload_scaling_factor": [0.001, 0.01, 0.1, 0.5],
-    "capacitance_scaling_factor": [0.1, 0.5],
+    "overload_scaling_factor": [0.001, 0.01, 0.1, 0.5, 0.9],
+    "capacitance_scaling_factor": [0.1, 0.5, 1.0],
     "min_r_ohm": [0.01, 0.1, 1.0, 5.0],
     "min_x_ohm": [0.01, 0.1, 1.0, 5.0],
     "max_r_ohm": [10.0, 1.0],
@@ -119,8 +119,44 @@ REPORT_PAIRS = [({"min_r_ohm": 1.0}, {"min_r_ohm": 5.0}), ({"min_x_ohm": 5.0}, {
                 ({"min_r_ohm": 5.0, "min_x_ohm": 5.0}, {}),
                 ({"overload_scaling_factor": 0.5, "max_iteration": 1}, {"overload_scaling_factor": 0.1, "max_iteration": 1}),
                 ({"capacitance_scaling_factor": 0.5, "run": "ok_if_no_capacitance"}, {"run": "ok_if_no_capacitance"})]
-FN_KINDS = ["echo", "echo", "echo", "count", "DeviationFromStdType", "SlackGenPlacement", "SlackGenPlacement", "Overload",
-            "ImplausibleImpedanceValues"]
+# every DiagnosticFunction class of pandapower/diagnostic/diagnostic_functions.py (checked against the module in _env:
+# a class missing here is labelled "uncovered-class:<name>")
+LIB_CLASSES = ["InvalidValues", "NoExtGrid", "MultipleVoltageControllingElementsPerBus", "Overload", "WrongLineCapacitance",
+               "SubNetProblemTest", "OptimisticPowerflow", "SlackGenPlacement", "TestContinuousBusIndices",
+               "WrongSwitchConfiguration", "MissingBusIndices", "DifferentVoltageLevelsConnected",
+               "ImplausibleImpedanceValues", "NominalVoltagesMismatch", "DisconnectedElements", "WrongReferenceSystem",
+               "NumbaComparison", "DeviationFromStdType", "ParallelSwitches"]
+FN_KINDS = ["echo", "echo", "echo", "echo", "count", "SlackGenPlacement", "Overload", "ImplausibleImpedanceValues"] + LIB_CLASSES
+# options a function class reads itself (non-default values whose effect on the verdict is large)
+OWN_OPTS = {
+    "Overload": [{"overload_scaling_factor": 0.9}, {"overload_scaling_factor": 0.5}],
+    "WrongLineCapacitance": [{"capacitance_scaling_factor": 0.5}, {"capacitance_scaling_factor": 1.0}],
+    "ImplausibleImpedanceValues": [{"min_x_ohm": 5.0}, {"min_r_ohm": 5.0, "min_x_ohm": 5.0}, {"max_r_ohm": 1.0, "max_x_ohm": 1.0},
+                                   {"min_r_ohm": 1.0}],
+    "NominalVoltagesMismatch": [{"nom_voltage_tolerance": 0.02}, {"nominal_voltage_tolerance": 0.02}],
+    "NumbaComparison": [{"numba_tolerance": 1e-13}],
+}
+# classes that run power flows: power-flow kwargs / run hooks are options of theirs, too
+PF_CLASSES = ["Overload", "WrongLineCapacitance", "SubNetProblemTest", "OptimisticPowerflow", "SlackGenPlacement",
+              "TestContinuousBusIndices", "WrongSwitchConfiguration", "ImplausibleImpedanceValues", "NumbaComparison"]
+PF_OPTS = [{"max_iteration": 1}, {"run": "always_fail"}, {"run": "ok_if_load_scaled"}, {"algorithm": "iwamoto_nr"},
+           {"calculate_voltage_angles": False, "max_iteration": 2}]
+# kwargs given to BOTH calls of an explicit-then-default pair: make the base power flow of the second call fail, too
+COMMON_OPTS = [{}, {}, {"run": "ok_if_load_scaled"}, {"run": "ok_if_load_scaled"}, {"run": "ok_if_gen_scaled"},
+               {"run": "ok_if_no_capacitance"}, {"run": "always_fail"}, {"run": "ok_if_switches_closed"}, {"max_iteration": 1}]
+# thresholds that flag ordinary elements as implausible
+THRESHOLDS = [{"max_r_ohm": 1.0, "max_x_ohm": 1.0}, {"min_x_ohm": 5.0}, {"min_r_ohm": 5.0, "min_x_ohm": 5.0}, {"max_x_ohm": 10.0}]
+IMPL_TYPES = ["xward", "xward", "line", "impedance", "trafo", "trafo3w"]
+PROFILE_2L = netgen.profile(nb_level=(1, 3), nb_max=6, max_per_bus=2, extra_branches=(0, 1), oos=0.05,
+                            level_sets=[ls for ls in netgen.LEVEL_SETS if len(ls) == 2],
+                            bus_kinds={"load": 5, "sgen": 3, "gen": 2, "storage": 1, "shunt": 1, "ward": 1, "xward": 2,
+                                       "motor": 1, "asymmetric_load": 0, "asymmetric_sgen": 0},
+                            branch_kinds={"line": 7, "impedance": 2, "bb": 1})
+PROFILE_3L = netgen.profile(nb_level=(1, 2), nb_max=6, max_per_bus=2, extra_branches=(0, 1), oos=0.05,
+                            level_sets=[ls for ls in netgen.LEVEL_SETS if len(ls) == 3],
+                            bus_kinds={"load": 5, "sgen": 3, "gen": 2, "storage": 1, "shunt": 1, "ward": 1, "xward": 2,
+                                       "motor": 1, "asymmetric_load": 0, "asymmetric_sgen": 0},
+                            branch_kinds={"line": 7, "impedance": 2, "bb": 1})
 ARG_CHOICES = [None, None, [], ["min_r_ohm"], ["my_option"], ["overload_scaling_factor", "my_option"]]
 NAME_CHOICES = [None, None, "custom_a", "custom_b"]
 HELPER_DEFAULTS = {"overload_scaling_factor": 0.001, "lines_min_length_km": 0., "nom_voltage_tolerance": 0.3,
@@ -155,7 +191,9 @@ def _op(draw, kinds=("new", "new", "register", "register", "diagnose", "diagnose
     if kind == "register":
         return {"op": "register", "inst": draw(st.integers(0, 5)), "target": draw(st.sampled_from(["any", "any", "own"])),
                 "fn": draw(st.sampled_from(FN_KINDS)), "args": draw(st.sampled_from(ARG_CHOICES)),
-                "name": draw(st.sampled_from(NAME_CHOICES))}
+                "name": draw(st.sampled_from(NAME_CHOICES)),
+                # None: a new function object; k: the k-th function object the user created earlier (if there is one)
+                "share": draw(st.sampled_from([None, None, None, 0, 1, 2]))}
     if kind == "diagnose":
         return {"op": "diagnose", "inst": draw(st.integers(0, 5)), "net": draw(st.integers(0, 2)),
                 "kwargs": draw(_kwargs_strategy()),
@@ -168,24 +206,212 @@ def _op(draw, kinds=("new", "new", "register", "register", "diagnose", "diagnose
             "warnings_only": draw(st.booleans())}
 
 
+def _alive(recipe, e):
+    if not e.get("in_service", True):
+        return False
+    return all(recipe["buses"][e[k]].get("in_service", True) for k in netgen.BUS_KEYS if k in e)
+
+
+def _level_s(recipe, bus):
+    return netgen.LEVELS[recipe["buses"][bus]["vn_kv"]]["s"]
+
+
+def _make_implausible(draw, recipe, et):
+    """make one in-service element of type `et` implausible for the DEFAULT thresholds (r/x <= 0.001 ohm or >= 100 ohm) by
+    value; the element is inserted when the recipe has none and the type allows it. -> description or None (not possible)"""
+    el = recipe["el"]
+    cand = [e for e in el if e["t"] == et and _alive(recipe, e)]
+    if et == "xward":
+        if not cand:
+            node = netgen.nodes_of(recipe)
+            vc = {node[e["bus"]] for e in el if e["t"] in ("ext_grid", "gen")}
+            buses = [i for i, b in enumerate(recipe["buses"]) if b.get("in_service", True) and node[i] not in vc]
+            if not buses:
+                return None
+            b = draw(st.sampled_from(buses))
+            S = _level_s(recipe, b)
+            cand = [{"t": "xward", "bus": b, "ps_mw": round(0.1 * S, 6), "qs_mvar": round(0.03 * S, 6), "pz_mw": 0.0,
+                     "qz_mvar": 0.0, "r_ohm": 0.0, "x_ohm": 1.0, "vm_pu": 1.0}]
+            el.append(cand[0])
+        e = draw(st.sampled_from(cand))
+        how = draw(st.sampled_from(["zero", "zero", "tiny", "huge"]))
+        e.update({"zero": dict(r_ohm=0.0, x_ohm=0.0), "tiny": dict(r_ohm=0.0, x_ohm=0.0005),
+                  "huge": dict(x_ohm=150.0)}[how])
+        return "xward/" + how
+    if et == "line":
+        if not cand:
+            return None
+        e = draw(st.sampled_from(cand))
+        how = draw(st.sampled_from(["tiny", "tiny", "zero-r", "huge"]))
+        e.update({"tiny": dict(length_km=0.001), "zero-r": dict(r_ohm_per_km=0.0), "huge": dict(length_km=2000.0)}[how])
+        return "line/" + how
+    if et == "impedance":
+        if not cand:
+            lines = [e for e in el if e["t"] == "line" and _alive(recipe, e)]
+            if not lines:
+                return None
+            ln = draw(st.sampled_from(lines))
+            cand = [{"t": "impedance", "from_bus": ln["from_bus"], "to_bus": ln["to_bus"], "rft_pu": 0.01, "xft_pu": 0.05,
+                     "sn_mva": round(2 * _level_s(recipe, ln["from_bus"]), 4)}]
+            el.append(cand[0])
+        e = draw(st.sampled_from(cand))
+        how = draw(st.sampled_from(["tiny", "tiny", "huge"]))
+        v = {"tiny": dict(rft_pu=0.0, xft_pu=1e-05), "huge": dict(xft_pu=50.0)}[how]
+        e.update(v)
+        if "xtf_pu" in e:
+            e.update({k.replace("ft_", "tf_"): x for k, x in v.items()})
+        return "impedance/" + how
+    if not cand:
+        return None
+    e = draw(st.sampled_from(cand))
+    # transformers: short-circuit reactance referred to the hv side >= 100 ohm when that needs vk <= 40 %
+    sn, vk_key = (e["sn_mva"], "vk_percent") if et == "trafo" else (e["sn_hv_mva"], "vk_hv_percent")
+    vk = 100.0 * 100.0 * sn / e["vn_hv_kv"] ** 2
+    if vk > 40.0:
+        return None
+    e[vk_key] = max(e[vk_key], round(vk + 0.5, 2))
+    return et + "/huge"
+
+
+@st.composite
+def _netspec(draw, prof=PROFILE):
+    recipe = draw(netgen.grid(prof))
+    # shapes netgen draws rarely: the only reference is a slack generator / a generator out of service
+    eg = [e for e in recipe["el"] if e["t"] == "ext_grid"]
+    if len(eg) == 1 and draw(st.integers(0, 3)) == 3:
+        eg[0].pop("va_degree", None)
+        eg[0].update(t="gen", p_mw=0.0, slack=True)
+    if draw(st.integers(0, 3)) == 3:
+        gens = [e for e in recipe["el"] if e["t"] == "gen" and not e.get("slack")]
+        if gens:
+            draw(st.sampled_from(gens))["in_service"] = False
+    return {"recipe": recipe,
+            "stress": draw(st.sampled_from([1, 1, 1, 30, 300])),
+            "zones": draw(st.sampled_from([False, False, True]))}
+
+
+def _huge_load(draw, spec):
+    """a load far beyond the capability of the network at an in-service bus: the power flow does not converge"""
+    recipe = spec["recipe"]
+    buses = [i for i, b in enumerate(recipe["buses"]) if b.get("in_service", True)]
+    b = draw(st.sampled_from(buses))
+    S = _level_s(recipe, b)
+    recipe["el"].append({"t": "load", "bus": b, "p_mw": round(300.0 * S, 6), "q_mvar": round(100.0 * S, 6)})
+    spec["stress"] = 1
+
+
+def _diag(inst, net, kwargs, style=None):
+    return {"op": "diagnose", "inst": inst, "net": net, "kwargs": dict(kwargs), "report_style": style,
+            "warnings_only": False, "return_result_dict": True}
+
+
+def _merge(*dicts):
+    out = {}
+    for d in dicts:
+        out.update(d)
+    return out
+
+
+@st.composite
+def _reuse_prefix(draw, nets):
+    """user-created function objects registered on an instance without defaults (or on two instances), called with
+    explicit options and later without them"""
+    n_fn = draw(st.sampled_from([1, 1, 2, 3]))
+    classes = [draw(st.sampled_from(list(OWN_OPTS) * 2 + PF_CLASSES + LIB_CLASSES)) for _ in range(n_fn)]
+    if draw(st.integers(0, 4)) == 4:
+        classes.append("echo")
+    two = draw(st.integers(0, 2)) == 2
+    ops = [{"op": "new", "defaults": False}]
+    for k, c in enumerate(classes):
+        ops.append({"op": "register", "inst": 0, "target": "any", "fn": c, "args": None,
+                    "name": draw(st.sampled_from([None, None, "custom_a"])), "share": None})
+    if two:
+        ops.append({"op": "new", "defaults": draw(st.sampled_from([False, False, False, True]))})
+        for k, c in enumerate(classes):
+            ops.append({"op": "register", "inst": 1, "target": "any", "fn": c,
+                        "args": draw(st.sampled_from([None, None, None, []])), "name": None, "share": k})
+    # explicit options of the first call: own options of the classes, power flow options, anything
+    k1 = {}
+    for c in classes:
+        pool = list(OWN_OPTS.get(c, [])) * 3 + (PF_OPTS if c in PF_CLASSES else []) + [{"my_option": 1}]
+        k1.update(draw(st.sampled_from(pool)))
+    common = dict(draw(st.sampled_from(COMMON_OPTS)))
+    for k in k1:
+        common.pop(k, None)
+    j1 = draw(st.integers(0, len(nets) - 1))
+    j2 = j1 if draw(st.integers(0, 2)) else draw(st.integers(0, len(nets) - 1))
+    if not common or draw(st.integers(0, 2)) == 2:
+        _huge_load(draw, nets[j2])        # the second call sees a really non-converging network
+    second = 1 if two else 0
+    ops.append(_diag(0, j1, _merge(common, k1)))
+    if draw(st.integers(0, 3)) == 3:
+        ops.append(draw(_op(kinds=("diagnose", "helper", "new"))))
+    ops.append(_diag(second, j2, common, style=draw(st.sampled_from([None, None, "compact"]))))
+    if draw(st.integers(0, 2)) == 2:
+        ops.append(_diag(0, j1, common))
+    if draw(st.integers(0, 3)) == 3:
+        ops.append({"op": "report", "inst": second, "compact": draw(st.booleans()), "warnings_only": False})
+    return ops
+
+
+@st.composite
+def _implausible_case(draw):
+    """an element of every type the replace step touches is flagged (by value or by thresholds); base power flow converges
+    or fails (huge load, max_iteration=1, run hook)"""
+    et = draw(st.sampled_from(IMPL_TYPES))
+    spec = draw(_netspec({"trafo": PROFILE_2L, "trafo3w": PROFILE_3L}.get(et, PROFILE)))
+    spec["stress"] = 1
+    by_value = draw(st.integers(0, 2)) > 0
+    done = _make_implausible(draw, spec["recipe"], et) if by_value else None
+    if et in ("trafo", "trafo3w") or done is None:
+        # the replace step needs a flagged line / impedance / xward: one more by value, or thresholds that flag nearly all
+        extra = _make_implausible(draw, spec["recipe"], draw(st.sampled_from(["line", "impedance", "xward"]))) \
+            if draw(st.booleans()) else None
+        if done is None or extra is None:
+            by_value = False
+    kwargs = {} if by_value else dict(draw(st.sampled_from(THRESHOLDS)))
+    pf = draw(st.sampled_from(["converge", "converge", "huge-load", "huge-load", "max_iteration", "hook"]))
+    if pf == "huge-load":
+        _huge_load(draw, spec)
+    elif pf == "max_iteration":
+        kwargs["max_iteration"] = 1
+    elif pf == "hook":
+        kwargs["run"] = draw(st.sampled_from(["always_fail", "ok_if_switches_closed", "ok_if_load_scaled"]))
+    nets = [spec]
+    if draw(st.integers(0, 2)) == 2:
+        nets.append(draw(_netspec()))
+    who = draw(st.sampled_from(["default", "default", "default", "helper", "own", "own"]))
+    if who == "helper":
+        ops = [{"op": "helper", "net": 0, "kwargs": kwargs}]
+    elif who == "default":
+        ops = [{"op": "new", "defaults": True}, _diag(0, 0, kwargs, style=draw(st.sampled_from([None, None, "detailed"])))]
+    else:
+        ops = [{"op": "new", "defaults": False},
+               {"op": "register", "inst": 0, "target": "any", "fn": "ImplausibleImpedanceValues", "args": None, "name": None,
+                "share": None}]
+        if draw(st.booleans()):
+            ops.append({"op": "register", "inst": 0, "target": "any", "fn": draw(st.sampled_from(LIB_CLASSES)), "args": None,
+                        "name": None, "share": None})
+        ops.append(_diag(0, 0, kwargs))
+    n_tail = draw(st.integers(0, 2))
+    ops += draw(st.lists(_op(), min_size=n_tail, max_size=n_tail))
+    # the same network again (it must still be the network the reference sees)
+    ops.append(_diag(draw(st.integers(0, 2)), 0, draw(st.sampled_from([{}, {}, kwargs]))))
+    return {"nets": nets, "ops": ops}
+
+
 @st.composite
 def _case(draw, tier):
+    scenario = draw(st.sampled_from(["random", "random", "random", "reuse", "reuse", "implausible", "implausible"]))
+    if scenario == "implausible":
+        return draw(_implausible_case())
     n_nets = draw(st.sampled_from([1, 1, 2, 2, 3]))
-    nets = []
-    for _ in range(n_nets):
-        recipe = draw(netgen.grid(PROFILE))
-        # shapes netgen draws rarely: the only reference is a slack generator / a generator out of service
-        eg = [e for e in recipe["el"] if e["t"] == "ext_grid"]
-        if len(eg) == 1 and draw(st.integers(0, 3)) == 3:
-            eg[0].pop("va_degree", None)
-            eg[0].update(t="gen", p_mw=0.0, slack=True)
-        if draw(st.integers(0, 3)) == 3:
-            gens = [e for e in recipe["el"] if e["t"] == "gen" and not e.get("slack")]
-            if gens:
-                draw(st.sampled_from(gens))["in_service"] = False
-        nets.append({"recipe": recipe,
-                     "stress": draw(st.sampled_from([1, 1, 1, 30, 300])),
-                     "zones": draw(st.sampled_from([False, False, True]))})
+    nets = [draw(_netspec()) for _ in range(n_nets)]
+    if scenario == "reuse":
+        ops = draw(_reuse_prefix(nets))
+        n_tail = draw(st.integers(0, 2))
+        ops += draw(st.lists(_op(), min_size=n_tail, max_size=n_tail))
+        return {"nets": nets, "ops": ops}
     n_ops = draw(st.integers(3, 8))
     ops = draw(st.lists(_op(), min_size=n_ops, max_size=n_ops))
     clean = draw(st.integers(0, 3)) == 3
@@ -312,9 +538,11 @@ def _env():
             _S["P_FUNCS"] = pristine
     _S["P_FILTERS"] = list(_S["logger"].filters)
     _S["P_LEVEL"] = _S["logger"].level
-    _S["kinds"] = {"echo": Echo, "count": Count, "DeviationFromStdType": dfm.DeviationFromStdType,
-                   "SlackGenPlacement": dfm.SlackGenPlacement, "Overload": dfm.Overload,
-                   "ImplausibleImpedanceValues": dfm.ImplausibleImpedanceValues}
+    # every DiagnosticFunction class defined in diagnostic_functions.py
+    lib = {n: c for n, c in vars(dfm).items() if isinstance(c, type) and issubclass(c, dh.DiagnosticFunction)
+           and c.__module__ == dfm.__name__}
+    _S["kinds"] = dict(lib, echo=Echo, count=Count)
+    _S["uncovered"] = sorted(set(lib) - set(LIB_CLASSES))
     return _S
 
 
@@ -523,7 +751,24 @@ def _call(d, net, explicit, style, wo, then_report, buf):
     return _outcome(d, raised, text, rep)
 
 
-def _reference(template, defaults, regs, explicit, style=None, wo=False, then_report=None):
+def _fresh_objects(spec, uids):
+    """fresh function objects for a function list; entries with the same uid (the user registered ONE object twice on this
+    instance) share one fresh object, as in the call that is being judged"""
+    objs, out = {}, []
+    for k, (name, cls, args) in enumerate(spec):
+        uid = uids[k] if uids is not None and k < len(uids) and uids[k] is not None else ("#", k)
+        if uid not in objs:
+            objs[uid] = cls()
+        out.append((name, objs[uid], None if args is None else list(args)))
+    return out
+
+
+def _topology(uids):
+    """canonical form of a uid list: position of the first entry with the same uid"""
+    return [uids.index(u) for u in uids]
+
+
+def _reference(template, defaults, regs, explicit, style=None, wo=False, then_report=None, uids=None):
     """What a process that has never run a diagnostic before returns for
     Diagnostic(defaults) + the instance's own registrations + ONE diagnose_network(net, **explicit):
     module state reset in place to the pristine copies (fresh function objects), fresh net copy, new instance."""
@@ -531,8 +776,8 @@ def _reference(template, defaults, regs, explicit, style=None, wo=False, then_re
     net = copy.deepcopy(template)
     with _pristine_module_state(), silence(), _capture_log() as buf:
         d = env["dm"].Diagnostic(add_default_functions=defaults)
-        for name, cls, args in regs:
-            d.register_function(cls(), None if args is None else list(args), name)
+        for name, obj, args in _fresh_objects(regs, uids):
+            d.register_function(obj, args, name)
         return _call(d, net, explicit, style, wo, then_report, buf)
 
 
@@ -548,7 +793,7 @@ def _reference_helper(template, explicit):
     return out
 
 
-def _effective(template, eff_spec, eff_kw, module_args, explicit, style=None, wo=False, then_report=None):
+def _effective(template, eff_spec, eff_kw, module_args, explicit, style=None, wo=False, then_report=None, ids=None):
     """The same call replayed with the EFFECTIVE (possibly polluted) function list / kwargs / module-level default values
     that the instance really used, but with fresh function objects on a fresh net copy: tells whether a difference to
     the reference is fully explained by the observed pollution of kwargs / function list."""
@@ -562,7 +807,7 @@ def _effective(template, eff_spec, eff_kw, module_args, explicit, style=None, wo
         lg.filters[:] = env["P_FILTERS"]
         with silence(), _capture_log() as buf:
             d = env["dm"].Diagnostic(add_default_functions=False)
-            d._functions = [(n, cls(), None if a is None else list(a)) for n, cls, a in eff_spec]
+            d._functions = _fresh_objects(eff_spec, ids)
             d.kwargs = dict(eff_kw)
             return _call(d, net, explicit, style, wo, then_report, buf)
     finally:
@@ -580,14 +825,16 @@ def _spawn_reference(args):
     sys.stderr = sys.stdout
     warnings.filterwarnings("ignore")
     logging.disable(logging.CRITICAL)
-    netspec, defaults, regs_json, kw_json, style, wo = args
+    netspec, defaults, regs_json, kw_json, style, wo = args[:6]
+    uids = args[6] if len(args) > 6 else None
     env = _env()
     pristine = {"args": _canon(env["P_ARGS"]), "funcs": _fspec_json(_fspec(env["P_FUNCS"]))}
     net = _template(netspec)
     with silence(), _capture_log() as buf:      # no reset of anything: this process is pristine
         d = env["dm"].Diagnostic(add_default_functions=defaults)
-        for name, kind, a in regs_json:
-            d.register_function(env["kinds"][kind](), a, name)
+        spec = [(name, env["kinds"][kind], a) for name, kind, a in regs_json]
+        for name, obj, a in _fresh_objects(spec, uids):
+            d.register_function(obj, a, name)
         out = _call(d, net, _resolve_kwargs(kw_json), style, wo, None, buf)
     return out, pristine
 
@@ -646,6 +893,11 @@ def _run_history(case, res, env):
     st_ = {"n_instances": 0, "polluting_before": False, "compared_after": False}
     spawn = case.get("ref") == "spawn"
     spawn_jobs = []
+    user_objs = []      # function objects created by the user (register ops), in creation order; uid = position
+    user_ids = {}       # id(object) -> uid
+    obj_calls = {}      # uid -> [(instance position, option names handed to the object, net, result name, result)]
+    for name in env["uncovered"]:
+        res.label("uncovered-class:" + name)
 
     def fail(sig, **detail):
         if sig not in seen:
@@ -656,13 +908,18 @@ def _run_history(case, res, env):
         return [[n, kind_of[c], None if a is None else list(a)] for n, c, a in regs]
 
     def reference(j, inst, kw_json, explicit, style, wo):
-        key = json.dumps([j, inst["defaults"], regs_json(inst["reg"]), kw_json, style, wo], sort_keys=True)
+        topo = _topology(inst["uids"])
+        key = json.dumps([j, inst["defaults"], regs_json(inst["reg"]), topo, kw_json, style, wo], sort_keys=True)
         if key not in ref_cache:
-            ref_cache[key] = _reference(templates[j], inst["defaults"], inst["reg"], explicit, style, wo)
+            ref_cache[key] = _reference(templates[j], inst["defaults"], inst["reg"], explicit, style, wo, uids=topo)
             if spawn:
-                spawn_jobs.append(((case["nets"][j], inst["defaults"], regs_json(inst["reg"]), kw_json, style, wo),
+                spawn_jobs.append(((case["nets"][j], inst["defaults"], regs_json(inst["reg"]), kw_json, style, wo, topo),
                                    ref_cache[key]))
         return ref_cache[key]
+
+    def obj_ids(d):
+        """identity tokens of the function objects of an instance (same token = same object)"""
+        return [id(f) for _, f, _ in d._functions]
 
     def expected_spec(inst):
         return (p_spec if inst["defaults"] else []) + inst["reg"]
@@ -670,7 +927,7 @@ def _run_history(case, res, env):
     def new_instance(defaults, step):
         d = Diagnostic(add_default_functions=defaults)
         st_["n_instances"] += 1
-        inst = {"obj": d, "defaults": defaults, "reg": [], "last": None}
+        inst = {"obj": d, "defaults": defaults, "reg": [], "uids": [], "last": None}
         insts.append(inst)
         # I2: a new instance has exactly the pristine defaults
         want_kw = P_ARGS if defaults else {}
@@ -762,7 +1019,7 @@ def _run_history(case, res, env):
         return None, None, None
 
     def judge(step, op, j, inst_pos, exp, actual, exp_spec, exp_kw, eff_spec, eff_kw, module_args, explicit, style, wo,
-              errors_observable=True):
+              errors_observable=True, ids=None):
         """actual outcome vs reference; if different: is it explained by the observed pollution?"""
         if st_["polluting_before"]:
             st_["compared_after"] = True
@@ -778,7 +1035,7 @@ def _run_history(case, res, env):
                       expected={k: exp[k] for k in ("raised", "results", "errors")})
         explained = False
         if causes:
-            eff = _effective(templates[j], eff_spec, eff_kw, module_args, explicit, style, wo)
+            eff = _effective(templates[j], eff_spec, eff_kw, module_args, explicit, style, wo, ids=ids)
             if not errors_observable:
                 eff["errors"] = actual["errors"]
             explained = _outcome_equal(actual, eff, with_text)
@@ -788,7 +1045,16 @@ def _run_history(case, res, env):
                 fail("result-differs/unexplained/%s" % where, note="differs also from a replay with the effective (polluted) "
                      "kwargs and function list on a fresh net", causes=causes, **detail)
         else:
-            fail("result-differs/hidden-state/%s" % where, **detail)
+            # kwargs and function list are as the model says: the state is carried by a function object (or by the net)
+            culprit = where
+            if where.startswith(("results:", "errors:")):
+                nm = where.split(":", 1)[1]
+                cl = [c.__name__ for n, c, _ in eff_spec if n == nm]
+                culprit = "%s:%s" % (where.split(":")[0], cl[0]) if cl else where
+            shared = inst_pos is not None and any(
+                p != inst_pos for f_id in (ids or []) if f_id in user_ids for p, *_ in obj_calls.get(user_ids[f_id], []))
+            fail("result-differs/hidden-state/%s" % culprit, function_object_used_by_other_instance_before=bool(shared),
+                 **detail)
         return False
 
     for step, op in enumerate(case["ops"]):
@@ -808,14 +1074,35 @@ def _run_history(case, res, env):
                 name = "%s_%d" % (base, k)
             args = op.get("args")
             before = others_state(inst)
-            inst["obj"].register_function(cls(), None if args is None else list(args), name)
+            share = op.get("share")
+            if share is not None and user_objs:
+                # the user registers a function object created earlier once more (on this or on another instance)
+                uid = share % len(user_objs)
+                fobj = user_objs[uid]
+                cls = type(fobj)
+                if not op.get("name"):
+                    name = cls.__name__
+                    k = 1
+                    while name in used:
+                        k += 1
+                        name = "%s_%d" % (cls.__name__, k)
+                where = [i for i in insts if uid in i["uids"]]
+                res.label("register:shared-object/other-instance" if any(i is not inst for i in where)
+                          else "register:shared-object/same-instance")
+            else:
+                fobj = cls()
+                uid = len(user_objs)
+                user_objs.append(fobj)
+                user_ids[id(fobj)] = uid
+            inst["obj"].register_function(fobj, None if args is None else list(args), name)
             inst["reg"] = inst["reg"] + [(name, cls, None if args is None else tuple(args))]
+            inst["uids"] = inst["uids"] + [uid]
             check_others(before, step, "register_function")
             if _fspec(inst["obj"]._functions)[-1:] != inst["reg"][-1:]:
                 fail("register/not-appended", step=step, op=op)
             st_["polluting_before"] = True
             res.label("register:default-inst" if inst["defaults"] else "register:own-inst")
-            res.label("register:" + op["fn"])
+            res.label("register:" + kind_of[cls])
 
         elif kind in ("diagnose", "helper"):
             j = op.get("net", 0) % n_nets
@@ -846,6 +1133,20 @@ def _run_history(case, res, env):
                 exp_kw = dict(P_ARGS if inst["defaults"] else {})
                 exp_kw.update(explicit)
                 before = others_state(inst)
+                ids = obj_ids(d)
+                # user-created function objects that got an option in an earlier call and do not get it now
+                handed = []
+                for (fname, fobj, arg_names) in d._functions:
+                    if id(fobj) not in user_ids:
+                        continue
+                    uid = user_ids[id(fobj)]
+                    keys = set(exp_kw) if arg_names is None else {a for a in arg_names if a in exp_kw}
+                    nondefault = {k for k in keys if k not in P_ARGS or _same(_canon(exp_kw[k]), _canon(P_ARGS[k]))}
+                    for p0, keys0, j0, _, _ in obj_calls.get(uid, []):
+                        if keys0 - nondefault:
+                            res.label("%s-function-instance/explicit-then-default" % ("reused" if p0 == inst_pos else "shared"))
+                            res.label("explicit-then-default:" + type(fobj).__name__)
+                    handed.append((uid, nondefault, fname, fobj))
                 ret, raised = None, None
                 with silence(), _capture_log() as buf:
                     try:
@@ -872,9 +1173,18 @@ def _run_history(case, res, env):
                 if msg:
                     res.label("missing-named-argument")
                 ok = judge(step, op, j, inst_pos, exp, actual, exp_spec, exp_kw, eff_spec, eff_kw, module_args, explicit,
-                           style, wo)
+                           style, wo, ids=ids)
                 inst["last"] = {"net": j, "spec": eff_spec, "kw": eff_kw, "module_args": module_args, "explicit": explicit,
-                                "raised": raised, "results": actual["results"], "errors": actual["errors"], "clean": ok}
+                                "raised": raised, "results": actual["results"], "errors": actual["errors"], "clean": ok,
+                                "ids": ids}
+                for uid, nondefault, fname, fobj in handed:
+                    mine = _canon([exp["results"].get("{%s}" % fname), exp["errors"].get("{%s}" % fname)])
+                    for p0, keys0, j0, _, r0 in obj_calls.get(uid, []):
+                        if keys0 - nondefault and j0 == j and _same(r0, mine):
+                            # the dropped option changes what the function returns for this network
+                            res.label("explicit-then-default/option-matters")
+                            res.label("option-matters:" + type(fobj).__name__)
+                    obj_calls.setdefault(uid, []).append((inst_pos, nondefault, j, fname, mine))
                 kw_history.append((inst_pos, explicit))
                 res.label("diagnose:defaults" if inst["defaults"] else "diagnose:own-functions-only")
                 if style is not None:
@@ -925,6 +1235,15 @@ def _run_history(case, res, env):
                 v = r["{implausible_impedance_values}"]
                 if isinstance(v, list) and len(v) > 1:
                     res.label("switch-replacement-tried")
+            # which element types were flagged, and did the base power flow fail (=> the replace step ran on the net)
+            for nm, c, _ in eff_spec:
+                v = r.get("{%s}" % nm) if isinstance(r, dict) and c.__name__ == "ImplausibleImpedanceValues" else None
+                if isinstance(v, list) and v and isinstance(v[0], dict):
+                    flagged = sorted(k.strip("{}") for k in v[0])
+                    trigger = any(k in ("line", "impedance", "xward") for k in flagged)
+                    how = "base-pf-fails" if len(v) > 1 else "base-pf-converges" if trigger else "no-replace-trigger"
+                    for k in flagged:
+                        res.label("implausible-%s+%s" % (k, how))
             # I5: input tables unchanged
             diffs = oracles.compare_snapshot(snap, net)
             if diffs:
@@ -963,11 +1282,16 @@ def _run_history(case, res, env):
             elif _fspec(d._functions) != last["spec"]:
                 # a function was registered after the last call: it has no result yet, its report is not specified
                 res.label("report:after-later-registration")
+            elif any(id(f) in user_ids and obj_calls.get(user_ids[id(f)]) and obj_calls[user_ids[id(f)]][-1][0] != insts.index(inst)
+                     for _, f, _ in d._functions):
+                # a function object the user shares between instances was run by another instance in the meantime: the
+                # object keeps what it needs for its report (documented design), whose report this is is not specified
+                res.label("report:shared-object-used-by-other-instance")
             else:
                 # the report belongs to the instance's last call: same text as a report made right after that call
                 # (replayed with the kwargs / functions that call really used, fresh function objects, fresh net)
                 ref = _effective(templates[last["net"]], last["spec"], last["kw"], last["module_args"], last["explicit"],
-                                 None, False, then_report=(compact, wo))
+                                 None, False, then_report=(compact, wo), ids=last.get("ids"))
                 if _same(ref["results"], last["results"]) or _same(ref["errors"], last["errors"]):
                     res.label("report:replay-differs")      # judged at the diagnose step already
                 else:
